@@ -1,6 +1,6 @@
 """C15 -- sampling (structural clauses: tensor-shape contracts of the sampling chain)."""
 from ..core import Ctx, Ob, PropSpec, ok, viol
-from ..rules import r4, r8, r10
+from ..rules import r4, r8, r10, r14
 
 INNER = r4.INNER
 
@@ -36,6 +36,8 @@ def run(ctx: Ctx) -> list[Ob]:
     obs += r4.layer_contracts(ctx, {"R4s"})
     obs += r4.query_contracts(ctx, {"pad", "sample-call"})
     obs += sample_coverage(ctx)
+    obs += r14.sampling_weight_guard(ctx)
+    obs += r14.narrowing_casts(ctx)
     obs += [o for o in r10.r10i(ctx) if o.instance.endswith(':sample')]
     obs += r8.run_guards(ctx, [g for g in r8.GUARDS_QUERIES if "SamplingQuery" in g.func])
     return obs
@@ -49,11 +51,11 @@ SPEC = PropSpec(
         "abstract configuration of its constructor (arity 1..3, probs / logits, optional log-partition; sizes symbolic), sample() "
         "keeps the contract of the sampling chain -- input layers return (F, Ko, N), inner layers map (F, H, Ki, N, D) to "
         "(F, Ko, N, D) with Ko the layer's own number of output units (a Kronecker layer that combines the sample axis instead of the "
-        "unit axis returns (F, Ki, N^H, D)) -- and SamplingQuery._pad_samples maps (F, Ko, N) to (F, Ko, N, |scope|) ('each variable "
+        "unit axis returns (F, Ki, N^H, D)) -- and SamplingQuery._pad_samples maps (F, Ko, N) to (F, Ko, N, max(scope) + 1), the column axis being addressed by variable id as the D axis of the circuit input is, not (F, Ko, N, |scope|) ('each variable "
         "column is filled from the input layer of that variable' needs that layout); R4t: every concrete inner layer class overrides "
         "the refusing base sample() (otherwise the query raises for the circuits built with it, e.g. under optimize=True); R8: the "
         "guards of SamplingQuery (__init__, __call__) fire under every valuation; R4q sample-call: SamplingQuery.__call__, interpreted on an abstract (O, K, N, D) result of the sampling pass, returns (num_samples, num_variables) whose rows are the sample axis and whose columns are the variable axis (element order, not only sizes). R4u: sample() of every inner layer reads all of its inputs (selections x[:, i] of the arity axis cover 0..H-1, or the axis is reduced / unbound / flattened as a whole): an input that is never read leaves its variables at zero in every sample."
-        " R4s randomness: sample() of every input layer draws one independent random number per returned entry -- some random source (distribution.sample, randn, rand, multinomial) has as many elements as the (F, Ko, N) result; noise of shape (N,) broadcast over folds and units leaves every marginal right and the joint wrong under fold=True. R10i: no sample() updates in place a tensor that aliases its argument (`y = x[:, 0]; y += ..`): the argument is the stored output of another module, handed out as a view by the address book."
+        " R14n: the sign test by which sample() of a sum layer refuses is `weight < 0` (or its negation), never a strict-positivity test -- mixing layers and sparse mixtures have exact zeros. R14p: no cast of sampled values to an integer type that cannot hold every category admitted by its guard (int8 holds 128 values). R4s randomness: sample() of every input layer draws one independent random number per returned entry -- some random source (distribution.sample, randn, rand, multinomial) has as many elements as the (F, Ko, N) result; noise of shape (N,) broadcast over folds and units leaves every marginal right and the joint wrong under fold=True. R10i: no sample() updates in place a tensor that aliases its argument (`y = x[:, 0]; y += ..`): the argument is the stored output of another module, handed out as a view by the address book."
     ),
     not_decided="the distribution of the samples (statistical); which mixture component is chosen; positivity of the returned samples.",
     run=run,
